@@ -110,6 +110,13 @@ def gen_history(rng, tier):
             ops = [['run', everything, False, True, []], ['uncache', gone],
                    ['run', [[t, 0] for t in rng.sample(tops, rng.randint(1, len(tops)))], False, True, []],
                    ['cached', sorted(rng.sample(list(range(12)) + [14], 4))]] + ops[:3]
+    elif rng.random() < 0.25:
+        # directed pattern (for the histories that use two long-lived Lab objects in turn): one Lab has seen the entry, the
+        # other removes it, a run replaces it: the first one's answers follow the store, not what it saw before
+        everything = [[t, 0] for t in range(n)]
+        t = rng.randrange(n)
+        ops = [['run', everything, False, True, []], ['is_cached', t], ['uncache', [t]], ['is_cached', t],
+               ['run', [[t, 0]], False, True, []], ['is_cached', t], ['uncache', [t]], ['cached', sorted(rng.sample(list(range(12)) + [14], 4))], ['is_cached', t]] + ops[:2]
     if case['runner'] == 'fork':
         # a real worker saves its result on its own; when run_tasks raises at the first failure, results of workers whose
         # completion was never processed are (legitimately) in the cache although the coordinator never saw them: the
@@ -138,6 +145,17 @@ def run_history(h):
         os.environ['LV_FAILDIR'] = faildir
         epoch = 0
         stored = {}     # task id -> full value (with epoch) of its last successful execution under a caching type
+        # in half of the histories the operations other than runs go through two long-lived Lab objects, used in turn (what
+        # one of them did to the store, or a run did, must show in the answers of the other); in the others each gets a new Lab
+        use_sessions = h.get('sessions', h['seed'] % 2 == 0) and h['provider'] != 'local-relative'
+        sessions = {}
+
+        def query_lab(opno):
+            if not use_sessions:
+                return Lab(storage=storage, runner_backend='serial', notebook=False)
+            if opno % 2 not in sessions:
+                sessions[opno % 2] = Lab(storage=storage, runner_backend='serial', notebook=False)
+            return sessions[opno % 2]
         for opno, op in enumerate(h['ops']):
             if h['provider'] == 'local-relative':
                 # the process keeps changing its working directory between operations
@@ -250,7 +268,7 @@ def run_history(h):
                     if e[0] == 'submit' and not op[2] and was_cached[e[1]] and not e[2]:
                         problems.append(('cached-but-executed', f'task {e[1]} was cached but was executed again'))
             elif op[0] == 'uncache':
-                lab = Lab(storage=storage, runner_backend='serial', notebook=False)
+                lab = query_lab(opno)
                 for t in op[1]:
                     stored.pop(t, None)
                 try:
@@ -263,14 +281,20 @@ def run_history(h):
                     outs.append(['other', repr(e)[:200]])
                 oracles.append(None)
             elif op[0] == 'is_cached':
-                lab = Lab(storage=storage, runner_backend='serial', notebook=False)
+                lab = query_lab(opno)
                 try:
-                    outs.append(['bool', bool(lab.is_cached(built.canon[op[1]]))])
+                    ans = bool(lab.is_cached(built.canon[op[1]]))
+                    outs.append(['bool', ans])
+                    if use_sessions:
+                        fresh = bool(Lab(storage=storage, runner_backend='serial', notebook=False).is_cached(built.canon[op[1]]))
+                        if fresh != ans:
+                            problems.append(('lab-answer-stale', f'is_cached(task {op[1]}) is {ans} on a Lab object that has been in use since earlier operations and {fresh} on a new '
+                                                                 'Lab over the same storage: the answer follows what that object saw earlier, not the store'))
                 except BaseException as e:   # noqa
                     outs.append(['other', repr(e)[:200]])
                 oracles.append(None)
             else:
-                lab = Lab(storage=storage, runner_backend='serial', notebook=False)
+                lab = query_lab(opno)
                 try:
                     found = lab.cached_tasks([S.SCHED[i] for i in op[1]])
                     tids = []
@@ -536,7 +560,7 @@ def run_histories(prop, report, tier, seed, replay=None):
         for out in obs['outs']:
             dist[f'out={out[0]}'] += 1
         owner = {'entry-lost-by-run': ['C08', 'C06'], 'entry-appeared': ['C08'], 'entry-appeared-unneeded': ['C08', 'C03'], 'cached-but-executed': ['C06', 'C03'], 'no-result-meta': ['C06'], 'result-meta-differs': ['C06', 'C03'],
-                 'other-task-served': ['C06'], 'equal-task-not-cached': ['C06', 'C07', 'C03'], 'loaded-value-differs': ['C06', 'C08'], 'uncache-left-entry': ['C08'], 'loaded-under-bust': ['C08', 'C01', 'C02'], 'stale-read-of-failed-dep': ['C02', 'C10'], 'stale-dependency-value': ['C01', 'C02'],
+                 'other-task-served': ['C06'], 'equal-task-not-cached': ['C06', 'C07', 'C03'], 'loaded-value-differs': ['C06', 'C08'], 'uncache-left-entry': ['C08'], 'lab-answer-stale': ['C08', 'C06'], 'loaded-under-bust': ['C08', 'C01', 'C02'], 'stale-read-of-failed-dep': ['C02', 'C10'], 'stale-dependency-value': ['C01', 'C02'],
                  'foreign-task': ['C09', 'C08'], 'key-differs': ['C09', 'C08'], 'no-meta': ['C09'], 'listed-twice': ['C09', 'C08'], 'listed-not-cached': ['C08', 'C09'], 'stored-not-listed': ['C08', 'C09'], 'spurious-failure': ['C17', 'C02', 'C01', 'C06', 'C08', 'C09']}
         for sig, what in obs['problems']:
             if prop in owner.get(sig, []):
